@@ -61,11 +61,13 @@ AXES = {
     "ignored": [[], [0], [1], [0, 1]],
     "beta2": [1.0, 0.5],
     "graft": [None, ["adam", 0.5, 1e-1]],
+    "gscale": [1.0, 2.0 ** -17],  # tiny gradients with epsilon scaled accordingly (1e-1 * gscale^2 ~ 5.8e-12)
+    "grad_kind": ["table", "rank1_first", "onehot_first"],  # onehot: diagonal factors first, dense later (sticky diagonal flag)
 }
 BASELINES = [
-    {"shapes": [[2, 3]], "max_dim": 3, "merge": True, "fs": (1, 1), "dt": ("f32", "f32"), "inv_root_override": 0, "exp_mult": 1.0, "ignored": [], "beta2": 1.0, "graft": None},
-    {"shapes": [[2, 2, 3]], "max_dim": 2, "merge": False, "fs": (2, 2), "dt": ("f64", "f64"), "inv_root_override": 0, "exp_mult": 1.0, "ignored": [], "beta2": 0.5, "graft": ["adam", 0.5, 1e-1]},
-    {"shapes": [[3, 2], [4]], "max_dim": 1024, "merge": True, "fs": (2, 3), "dt": ("f32", "f32"), "inv_root_override": 0, "exp_mult": 1.0, "ignored": [], "beta2": 0.5, "graft": None},
+    {"shapes": [[2, 3]], "max_dim": 3, "merge": True, "fs": (1, 1), "dt": ("f32", "f32"), "inv_root_override": 0, "exp_mult": 1.0, "ignored": [], "beta2": 1.0, "graft": None, "gscale": 1.0, "grad_kind": "table"},
+    {"shapes": [[2, 2, 3]], "max_dim": 2, "merge": False, "fs": (2, 2), "dt": ("f64", "f64"), "inv_root_override": 0, "exp_mult": 1.0, "ignored": [], "beta2": 0.5, "graft": ["adam", 0.5, 1e-1], "gscale": 1.0, "grad_kind": "table"},
+    {"shapes": [[3, 2], [4]], "max_dim": 1024, "merge": True, "fs": (2, 3), "dt": ("f32", "f32"), "inv_root_override": 0, "exp_mult": 1.0, "ignored": [], "beta2": 0.5, "graft": None, "gscale": 1.0, "grad_kind": "rank1_first"},
 ]
 
 
@@ -76,7 +78,7 @@ def dev_cfg(d, seed, soap=False):
     return seq.cfg_with(
         shapes=d["shapes"], max_dim=d["max_dim"], merge=d["merge"], freq=d["fs"][0], start=d["fs"][1], pdtype=d["dt"][0], prec_dtype=d["dt"][1],
         inv_root_override=d["inv_root_override"], precond=pc, betas=[0.5, d["beta2"]], momentum=0.5, wd=0.5, decoupled=True, graft=d["graft"], seed=seed,
-        lr=0.125,
+        lr=0.125, gscale=d["gscale"], grad_kind=d["grad_kind"], eps=1e-1 * d["gscale"] ** 2,
     )
 
 
